@@ -190,7 +190,9 @@ impl Union<Name> for Name {
     fn union(&self, name: &Name) -> Self {
         let names: HashSet<TrueName> = self.names.union(&name.names).cloned().collect();
         Name {
-            names: if names.iter().any(TrueName::is_null) && names.len() > 1 {
+            // None (alone or inside a nullable member) makes the whole union nullable, whatever
+            // the order in which the members were joined.
+            names: if names.iter().any(|n| n.is_null() || n.is_nullable()) && names.len() > 1 {
                 names
                     .iter()
                     .filter(|n| !n.is_null())
